@@ -166,6 +166,11 @@ def run_split(case):
     out = {"viol": viol, "counters": dict(C), "nontrivial": nontrivial > 0, "nontrivial_n": min(nontrivial, case["n"])}
     if stat:
         out["stat"] = stat
+        # cumulative counts of the PIT values at 200 bin edges: pooled over cases in aggregate (a sup over a subset of points
+        # is still covered by the DKW bound)
+        out["pit_cum"] = [int(v) for v in np.searchsorted(np.sort(np.array(pit)), np.linspace(0, 1, 201)[1:], side="right")]
+        out["pit_n"] = len(pit)
+        out["pit_kind"] = kind
     return out
 
 
@@ -331,6 +336,38 @@ def aggregate(cases, records, tier, seed, run_more):
                 c2["seed"] = c["seed"] + 7919
                 c2["n"] = c["n"] * 4
                 retry.append((c, r, c2))
+    # pooled PIT per splitter kind (stage 1 only; a pooled rejection is confirmed by re-running every contributing case)
+    import numpy as np
+    pooled = {}
+    for c, r in zip(cases, records):
+        if r and "pit_cum" in r and c.get("stage", 1) == 1:
+            a = pooled.setdefault(r["pit_kind"], [np.zeros(200), 0, []])
+            a[0] += np.array(r["pit_cum"], dtype=float)
+            a[1] += r["pit_n"]
+            a[2].append(c)
+    edges = np.linspace(0, 1, 201)[1:]
+    for kind, (cum, n, cs) in pooled.items():
+        if n < 1000:
+            continue
+        D = float(np.max(np.abs(cum / n - edges)))
+        eps = stats.dkw_eps(n, 1e-12)
+        ev["statistical"].append("pooled %s splitter: sup over 200 edges |F_n-U|=%.4g, DKW bound %.4g (n=%d)" % (kind, D, eps, n))
+        if D > eps:
+            c2s = []
+            for c in cs:
+                c2 = dict(c); c2["stage"] = 2; c2["seed"] = c["seed"] + 104729
+                c2s.append(c2)
+            r2s = run_more(c2s)
+            cum2, n2 = np.zeros(200), 0
+            for r2 in r2s:
+                if r2 and "pit_cum" in r2:
+                    cum2 += np.array(r2["pit_cum"], dtype=float); n2 += r2["pit_n"]
+            D2 = float(np.max(np.abs(cum2 / max(n2, 1) - edges)))
+            if n2 and D2 > stats.dkw_eps(n2, 1e-12):
+                viol.append({"key": "C19/binomial-law:%s" % kind, "case": cs[0],
+                             "msg": "pooled randomized PIT of binomial partition counts (%s splitter) rejected at both stages: D=%.4g (n=%d), D=%.4g (n=%d)" % (kind, D, n, D2, n2)})
+            else:
+                ev["stage1_unconfirmed"] += 1
     if retry:
         for (c, r1, c2), r2 in zip(retry, run_more([x[2] for x in retry])):
             if r2 and "stat" in r2 and not r2["stat"]["ok"]:
